@@ -344,7 +344,21 @@ Definition size_upd (k : key) (chain : list key) (new vd : N) (a : oattr) : oatt
   let a1 := upd_key k (set_lmem new) a in
   if mem_key (akey a) chain then set_tmem (u64add (a_tmem a1) vd) a1 else a1.
 
-Definition apply_one (rev : bool) (e : entry) (T : topo) : outcome topo :=
+(* first info with this name and this value gets the new value, in place *)
+Definition patch_total (nm old new : string) (l : infos_t) : infos_t :=
+  match patch_infos nm old new l with Some l' => l' | None => l end.
+
+(* what one entry does once its checks have passed: an in-place update of
+   the addressed object (and, for SIZE, of total_memory up the parent chain),
+   or of the topology infos *)
+Inductive eff := EObj (f : oattr -> oattr) | ETinfos (g : infos_t -> infos_t).
+Definition run_eff (x : eff) (T : topo) : topo :=
+  match x with
+  | EObj f => set_root (tmap f (t_root T)) T
+  | ETinfos g => set_tinfos (g (t_infos T)) T
+  end.
+
+Definition step (rev : bool) (e : entry) (T : topo) : outcome eff :=
   match e with
   | EAttr d i ad =>
       let obj := get_obj T d i in
@@ -361,7 +375,7 @@ Definition apply_one (rev : bool) (e : entry) (T : topo) : outcome topo :=
             | Some (a, anc) =>
                 if negb (is_numa (a_type a)) then Fail
                 else if negb (a_lmem a =? old) then Fail
-                else Ok (set_root (tmap (size_upd (akey a) (akey a :: anc) new vd) (t_root T)) T)
+                else Ok (EObj (size_upd (akey a) (akey a :: anc) new vd))
             end
         | DName ov nv =>
             let old := if rev then nv else ov in
@@ -378,7 +392,7 @@ Definition apply_one (rev : bool) (e : entry) (T : topo) : outcome topo :=
                         if negb (String.eqb cur o) then Fail
                         else match new with
                              | None => Crash                (* strdup(NULL) *)
-                             | Some n => Ok (set_root (tmap (upd_key (akey a) (set_name (Some n))) (t_root T)) T)
+                             | Some n => Ok (EObj (upd_key (akey a) (set_name (Some n))))
                              end
                     end
                 end
@@ -390,12 +404,12 @@ Definition apply_one (rev : bool) (e : entry) (T : topo) : outcome topo :=
             | Some (a, _) =>
                 match patch_infos nm old new (a_infos a) with
                 | None => Fail
-                | Some l => Ok (set_root (tmap (upd_key (akey a) (set_infos l)) (t_root T)) T)
+                | Some _ => Ok (EObj (upd_key (akey a) (fun x => set_infos (patch_total nm old new (a_infos x)) x)))
                 end
             | None =>                                       (* obj_depth == nb_levels: topology infos *)
                 match patch_infos nm old new (t_infos T) with
                 | None => Fail
-                | Some l => Ok (set_tinfos l T)
+                | Some _ => Ok (ETinfos (patch_total nm old new))
                 end
             end
         | DOther _ => Fail
@@ -403,6 +417,13 @@ Definition apply_one (rev : bool) (e : entry) (T : topo) : outcome topo :=
       end
   | ETooComplex _ _ => Fail
   | EOther _ => Fail
+  end.
+
+Definition apply_one (rev : bool) (e : entry) (T : topo) : outcome topo :=
+  match step rev e T with
+  | Ok x => Ok (run_eff x T)
+  | Fail => Fail
+  | Crash => Crash
   end.
 
 (* ------------------------------------------------------------------ *)
